@@ -83,7 +83,8 @@ class _Filterer(object):
             # Top level operators.
             if key == '$comment':
                 continue
-            if key in LOGICAL_OPERATOR_MAP:
+            # $not is not a top level operator: it negates the condition on a field.
+            if key in LOGICAL_OPERATOR_MAP and key != '$not':
                 if not search:
                     raise OperationFailure('BadValue $and/$or/$nor must be a nonempty array')
                 if not LOGICAL_OPERATOR_MAP[key](document, search, self.apply):
